@@ -81,21 +81,21 @@ func (e *Engine) lookupFaults() error {
 						return e.viol("cannot open root: %v", err)
 					}
 					e.L.Reads, e.L.FailRead = 0, 0
-					cb := &Callbacks{}
+					cb := &Callbacks{Groups: e.CB.Groups}
 					if err := look(m, cb); err != nil {
 						return e.viol("fault-free lookup failed: %v", err)
 					}
 					reads, cmps, hips := e.L.Reads, cb.CmpCalls, cb.HipCalls
 					for k := 1; k <= cmps; k++ {
 						_, _, m, _ := cold()
-						if err := wantExternal(fmt.Sprintf("map lookup (has=%v), comparator call %d of %d fails", has, k, cmps), look(m, &Callbacks{FailCmpAt: k})); err != nil {
+						if err := wantExternal(fmt.Sprintf("map lookup (has=%v), comparator call %d of %d fails", has, k, cmps), look(m, &Callbacks{FailCmpAt: k, Groups: e.CB.Groups})); err != nil {
 							return err
 						}
 						e.Stats.Add("injected_lookup_faults", 1)
 					}
 					for k := 1; k <= hips; k++ {
 						_, _, m, _ := cold()
-						if err := wantExternal(fmt.Sprintf("map lookup (has=%v), hash-input call %d of %d fails", has, k, hips), look(m, &Callbacks{FailHipAt: k})); err != nil {
+						if err := wantExternal(fmt.Sprintf("map lookup (has=%v), hash-input call %d of %d fails", has, k, hips), look(m, &Callbacks{FailHipAt: k, Groups: e.CB.Groups})); err != nil {
 							return err
 						}
 						e.Stats.Add("injected_lookup_faults", 1)
@@ -103,7 +103,7 @@ func (e *Engine) lookupFaults() error {
 					for k := 1; k <= reads; k++ {
 						_, _, m, _ := cold()
 						e.L.Reads, e.L.FailRead = 0, k
-						err := look(m, &Callbacks{})
+						err := look(m, &Callbacks{Groups: e.CB.Groups})
 						e.L.FailRead = 0
 						if err := wantExternal(fmt.Sprintf("map lookup (has=%v), ledger read %d of %d fails", has, k, reads), err); err != nil {
 							return err
@@ -205,6 +205,7 @@ func init() {
 		CollLimits: []uint32{0, 1, 2, 255},
 	})
 	g.DigRootsPct = 50
+	g.HipGroupsPct = 15
 	noiseVal := &GenCfg{ValW: map[string]int{"u": 4, "s0": 2, "s2": 2, "s5": 3, "s6": 3, "some": 2}, MaxDepth: 0}
 	register(&PropDef{
 		ID:  "C18",
